@@ -72,6 +72,12 @@ def gen_sequence(rng, ctx, size="small"):
             ds_info[h] = list(msg_info[m]) if msg_info.get(m) else None      # a decoded dataset can be extended, merged and encoded again
         elif r < 0.86 and len(live["ds"]) >= 2:
             a, b = rng.sample(live["ds"], 2)
+            if rng.random() < 0.2 and ds_info[a] and ds_info[a][2] > 0:
+                # a dataset merged into itself, at the same or at another position (legal: same template, positions in range)
+                p_ = rng.randint(0, ds_info[a][2] - 1)
+                ops.append("G%d,%d,%d,%d,%d" % (a, p_ if rng.random() < 0.6 else rng.randint(0, ds_info[a][2]), a, p_, rng.randint(1, 2)))
+                ds_info[a][2] += 2          # upper bound of the new subset count is enough for later positions
+                continue
             if ds_info[a] and ds_info[b] and ds_info[a][1] == ds_info[b][1] and ds_info[b][2] > 0:
                 ops.append("G%d,%d,%d,%d,%d" % (a, rng.randint(0, ds_info[a][2] + 1), b, rng.randint(0, ds_info[b][2]), rng.randint(0, 3)))
             elif ds_info[a]:
